@@ -172,7 +172,7 @@ PROPS = {
                      "the three arms of start_replication_thread are extracted with the loop's locals as parameters (R10)"],
     ),
     "C17": dict(
-        units=["sessions", "consensus", "http"],
+        units=["sessions", "consensus", "http", "snapshot"],
         undecided=["that each transport calls Client::left exactly once when a session ends (tcp_ops / ws_ops / http_ops disconnect paths) - glue",
                    "two sessions interleaved at lock granularity (sequential semantics only)",
                    "the $connections key on an arbiter-strategy database while that key is in conflict resolution"],
